@@ -273,6 +273,7 @@ fn sender_alphabet(cfg: &XCfg, v: &SView, answers: usize) -> Vec<Alt> {
                 a.push((pkt(rc::oack(&[("blksize", "8")]), 0), 1, "stray Oack".into()));
                 a.push((pkt(vec![0, 9], 0), 1, "undecodable".into()));
                 a.push((pkt(vec![4], 0), 1, "1-byte".into()));
+                a.push((pkt(vec![0, 4, 0], 0), 1, "truncated ACK (3 bytes)".into()));
             }
         }
     }
@@ -320,7 +321,8 @@ fn receiver_alphabet(cfg: &XCfg, r: &RefRecv, content: &[u8], answers: usize) ->
         a.push((pkt(rc::ack(w16(e)), 0), 1, "stray Ack".into()));
         a.push((pkt(rc::oack(&[("blksize", "8")]), 0), 1, "stray Oack".into()));
         a.push((pkt(vec![0, 9], 0), 1, "undecodable".into()));
-        a.push((pkt(vec![3, 0, 1], 0), 1, "3-byte".into()));
+        a.push((pkt(vec![0, 3, 1], 0), 1, "truncated DATA (3 bytes)".into()));
+        a.push((pkt(vec![0, 3], 0), 1, "truncated DATA (2 bytes)".into()));
     }
     a
 }
